@@ -23,6 +23,7 @@ RULE = (
     "<= alpha, else N; (b) simulation branch with numpy's RandomState replaced by a scripted object: every tail the generator "
     "could return (reps=1) and every window of 3 consecutive tails (reps=3) x quantile x seed: if the supplied prefix already "
     "crosses alpha at k the estimate is k, and it always lies in 1..N; also with the real generator for a seed menu; (c) "
+    "Audit.find_sample_size given a sample of manual records (per-assertion data tiled; contest = max over unconfirmed assertions); "
     "Assertion.find_sample_size for comparison/ONEAudit (error-free values with one- and two-vote overstatements every "
     "floor(1/r) positions from 0) and polling (all tallies, interleaved), Contest/Audit.find_sample_size (= max over "
     "assertions) and raire.sample_estimator.sample_size; (d) interleave_values for all (a,b,c) in [0..6]^3: a permutation of "
@@ -261,6 +262,46 @@ def judge_contest_level(m, N, tallies, alpha, r1):
     return out, want
 
 
+def judge_audit_with_data(m, N, tallies, L, alpha):
+    """Audit.find_sample_size given a sample of manual records: per assertion the deterministic estimate on that assertion's
+    own data (tiled), per contest the maximum over its unconfirmed assertions"""
+    a_, b_, c_ = tallies
+    cvrs = [CVR(id=f"c{i}", votes={"con": {"A": True} if i < a_ else ({"B": True} if i < a_ + b_ else ({"C": True} if i < a_ + b_ + c_ else {}))}, sample_num=i + 1)
+            for i in range(N)]
+    con = Contest.from_dict({"id": "con", "name": "con", "risk_limit": alpha, "cards": N, "choice_function": Contest.SOCIAL_CHOICE_FUNCTION.PLURALITY,
+                             "n_winners": 1, "candidates": ["A", "B", "C"], "winner": ["A"], "audit_type": Audit.AUDIT_TYPE.CARD_COMPARISON,
+                             "test": s1.TESTS[m[0]], "estim": s1.ESTIMS[m[1]], "bet": s1.BETS[m[2]],
+                             "test_kwargs": {k: float(F(v)) if isinstance(v, str) else v for k, v in m[3].items()}, "g": 0.1, "use_style": True,
+                             "tally": None, "sample_size": None, "sample_threshold": 10 ** 9})
+    cons = {"con": con}
+    with warnings.catch_warnings():
+        warnings.simplefilter("ignore")
+        try:
+            Assertion.make_all_assertions(cons)
+            audit = Audit.from_dict({"quantile": 0.5, "error_rate_1": 0, "error_rate_2": 0, "reps": None, "sim_seed": 1,
+                                     "strata": {"s": {"max_cards": N, "use_style": True, "replacement": False}}})
+            Assertion.set_all_margins_from_cvrs(audit, cons, cvrs)
+            idx = list(range(0, N, max(1, N // L)))[:L]  # a spread-out sample of L cards
+            cvr_sample = [cvrs[i] for i in idx]
+            mvr_sample = [CVR(id=c.id, votes={k: dict(v) for k, v in c.votes.items()}) for c in cvr_sample]
+            mvr_sample[-1] = CVR(id=cvr_sample[-1].id, votes={"con": {"B": True}})  # one card read differently by hand
+            for c in cvr_sample:
+                c.sampled = True
+            want = {}
+            for name, asn in con.assertions.items():
+                d, u = asn.mvrs_to_data(mvr_sample, cvr_sample)
+                pop = (list(d) * math.ceil(N / len(d)))[:N]
+                twin = NonnegMean(test=con.test, estim=con.estim, bet=con.bet, u=u, N=N, t=1 / 2, g=con.g, **con.test_kwargs)
+                want[name] = first_crossing(twin.test(np.array(pop))[1], alpha, N)
+            audit.find_sample_size(contests=cons, cvrs=cvrs, mvr_sample=mvr_sample, cvr_sample=cvr_sample)
+            got = con.sample_size
+        except Exception as e:  # noqa
+            return [(f"C16|audit-with-data|exception|{type(e).__name__}", f"{type(e).__name__}: {str(e)[:80]}")], None
+    if got != max(want.values()):
+        return [("C16|audit-with-data|contest-estimate", f"per-assertion first crossings on their own tiled data {want}, contest.sample_size {got} (N={N}, tallies {tallies}, sample of {L})")], got
+    return [], got
+
+
 def judge_raire_estimator(N, tw, tl, polling, alpha):
     to = N - tw - tl
     mean = (tw + 0.5 * to) / N
@@ -415,6 +456,13 @@ def run_shard(sh, rec):
                             rec.vac("contest_level_cases")
                             for key, what in v:
                                 rec.violate(key, what, {"kind": "contest", "m": mi, "N": N, "tallies": [a_, b_, c_], "alpha": alpha, "r1": r1})
+                        for L in (2, 3):
+                            v, got = judge_audit_with_data(m, N, (a_, b_, c_), L, alpha)
+                            rec.trans()
+                            rec.evals(4)
+                            rec.vac("audit_with_data_cases")
+                            for key, what in v:
+                                rec.violate(key, what, {"kind": "auditdata", "m": mi, "N": N, "tallies": [a_, b_, c_], "alpha": alpha, "L": L})
     elif kind == "raire":
         for N in (6, 9, 12):
             for tw in range(1, N + 1):
@@ -473,6 +521,8 @@ def run_case(case):
         return judge_polling(METHODS[case["m"]], case["N"], case["n_win"], case["n_lose"], case["alpha"])[0]
     if k == "contest":
         return judge_contest_level(METHODS[case["m"]], case["N"], tuple(case["tallies"]), case["alpha"], case["r1"])[0]
+    if k == "auditdata":
+        return judge_audit_with_data(METHODS[case["m"]], case["N"], tuple(case["tallies"]), case["L"], case["alpha"])[0]
     if k == "raire":
         return judge_raire_estimator(case["N"], case["tw"], case["tl"], case["polling"], case["alpha"])[0]
     return judge_interleave(case["a"], case["b"], case["c"], case["custom"])
